@@ -222,5 +222,22 @@ func allProps() []*propInfo {
 				{ID: "C09.5", Doc: "[dom] (shared, C16.3) no error after commit", Run: ruleC09_5},
 			},
 		},
+		{
+			ID: "C11",
+			Explanation: "Static necessary conditions of 'streaming pull honours flow control and keeps flowing': " +
+				"C11.1 (K3 lockset) in the streamer's goroutines `pending` and `fc` are accessed only with mu held; C11.2 every fetched delivery is recorded in pending (loop without early exit, keyed by delivery id) before any Send/SendBatch; " +
+				"C11.3 the fetch limits are the client limits minus a complete walk over pending (−1 message, −size bytes each, strict-bytes iff anything pending); C11.4 every removal from pending is followed by a wake-up of the sender before the goroutine blocks again (a monotone flag is followed by constant propagation); " +
+				"C11.5 (K6 intervals) effectiveFlowControl returns limits >= 1 for every int64 input on amd64 (and 386 in the thorough tier), initial limits are positive constants; C11.6 an over-budget message is skipped without ending the scan and is never appended; the byte counter accumulates; " +
+				"C11.7 ids acked or nacked on the stream leave pending, and the refresh goroutine removes exactly the ids of its under-lock snapshot that the database no longer reports as outstanding. " +
+				"NOT decided: the numeric invariant over interleavings, promptness.",
+			Assumptions: []string{k1Assumption, "sync.Mutex semantics; channel send on a buffered channel never blocks the waker"},
+			Rules: []ruleFn{
+				{ID: "C11.1", Doc: "[lock] pending/fc under mu", Run: ruleC11_1},
+				{ID: "C11.2", Doc: "[dom] pending before send; fetch limits minus pending (C11.3)", Run: ruleC11_2_3},
+				{ID: "C11.4", Doc: "[dom] wake after release; settled ids leave the window (C11.7)", Run: ruleC11_4_7},
+				{ID: "C11.5", Doc: "[K6 interval] effective flow control >= 1", Run: ruleC11_5},
+				{ID: "C11.6", Doc: "[dom] byte budget", Run: ruleC11_6},
+			},
+		},
 	}
 }
